@@ -396,6 +396,12 @@ func ruleMapOrder1(c *Ctx) {
 				lit, isLit := ce.Args[0].(*ast.FuncLit)
 				desc := "callback of " + method
 				if !isLit {
+					// a named function or method value as callback: classify its body
+					if _, ft, body := c.funcOf(ce.Args[0]); body != nil && ft != nil {
+						lit, isLit = &ast.FuncLit{Type: ft, Body: body}, true
+					}
+				}
+				if !isLit {
 					c.R.Unk(owner, desc, ce.Pos(), "callback is not a function literal; cannot classify")
 					return true
 				}
@@ -412,6 +418,8 @@ func ruleMapOrder1(c *Ctx) {
 				case ins && hasAssert:
 					if r, ok := mapOrderFrozen[key]; ok {
 						c.R.OK(owner, desc, ce.Pos(), "callback only looks up and asserts; frozen: %s", r)
+					} else if c.assertOnly(lit.Body) {
+						c.R.OK(owner, desc, ce.Pos(), "callback only defines locals from look-ups and asserts on them: every entry is checked against references the callback does not change, so whether the iteration fails does not depend on the order (only which failing entry is worded in the error)")
 					} else {
 						c.R.Unk(owner, desc, ce.Pos(), "callback asserts per entry (first failure depends on order) and is not in the frozen table")
 					}
@@ -1201,4 +1209,36 @@ func rulePair2(c *Ctx) {
 		})
 	})
 	c.R.Check(n >= 1, "timelib", "lock sites found", token.NoPos, "the time-zone cache mutex is seen", "no Lock call found in the module: the scan is not seeing the program")
+}
+
+// assertOnly: the body consists of local definitions (`x, ok := f(..)`) and assertions (util.Assert / if-panic) only.
+func (c *Ctx) assertOnly(body *ast.BlockStmt) bool {
+	for _, st := range body.List {
+		switch x := st.(type) {
+		case *ast.AssignStmt:
+			if x.Tok != token.DEFINE {
+				return false
+			}
+		case *ast.ExprStmt:
+			ce, ok := x.X.(*ast.CallExpr)
+			if !ok || c.calleeName(ce) != "util.Assert" {
+				return false
+			}
+		case *ast.IfStmt:
+			if x.Else != nil || len(x.Body.List) != 1 {
+				return false
+			}
+			es, ok := x.Body.List[0].(*ast.ExprStmt)
+			if !ok {
+				return false
+			}
+			ce, ok := es.X.(*ast.CallExpr)
+			if !ok || !c.noReturn(ce) {
+				return false
+			}
+		default:
+			return false
+		}
+	}
+	return true
 }
